@@ -13,11 +13,19 @@ CLAIMS = {
  "C04": ("Preconditions of CreateStatefulPod (ordinal desired, not in the snapshot, vacant or just replaced, not twice, set not deleting) proved at the single call site of updateStatefulSet for all snapshots and slot sets.", RECON_NOTE, "6 C04"),
  "C05": ("OrderedReady clauses (at most one ordinal acted on, predecessors healthy before a create, scale-in only from the top with every desired pod ready, update only when nothing is left to scale in) are preconditions of the pod-control interface and a postcondition of updateStatefulSet, proved from inductive loop invariants.", RECON_NOTE, "6 C05"),
  "C07": ("Update deletes are justified only at/above the partition with every higher desired ordinal updated and healthy, at most one per reconcile, never under OnDelete; proved at the call site from the update-walk invariant. The revision label of re-created pods is carried by the (currently assumed) contract of newVersionedStatefulSetPod.", RECON_NOTE, "6 C07"),
+ "C09": ("Error-origin and error-propagation clauses along the whole reconcile path (processNextWorkItem -> sync -> adoptOrphanRevisions / getPodsForStatefulSet / ClaimPods / ClaimObject -> syncStatefulSet -> UpdateStatefulSet -> ListRevisions / getStatefulSetRevisions / updateStatefulSet / updateStatefulSetStatus / truncateHistory): a returned error stems from a failed API or pod-control call or from a documented local error (no self-inflicted failure); pod-control, status and revision-delete failures are returned, never swallowed; a failed sync is re-queued with rate limiting and not forgotten, a successful one is forgotten; Done is always called. Safety of partial work holds by construction: C03-C07, C10, C11, C13 are preconditions proved from the state before each call, and the reconcile keeps nothing in memory between runs.",
+         "Tolerated by contract (the code's documented intent): NotFound/Invalid on the release patch, NotFound on adoption, conflicts inside RetryOnConflict. 'Reaches the same final state as a run without failures' is a liveness statement (see C02) and is not decided. Assumed contracts: typed clients, listers, work queue, CanAdopt; function literals are opaque values.", "6 C09"),
+ "C10": ("ClaimObject is proved against contracts of its three function parameters: adoption only for an orphan that matches, is not terminating and whose controller is not being deleted; release only for an object owned by this controller's UID that stopped matching; objects owned by another UID are ignored without any call. AdoptPod issues its patch only after CanAdopt (the uncached re-read) returned nil; ReleasePod only patches (a delete call there is a false precondition). ListRevisions returns only revisions owned by the set or orphaned; revision adoption requires the fresh read (same UID, not deleted) and only orphans are adopted. Every store in the functions under contract is checked against the modifies clause (frame): objects that existed at entry - cache objects - are written only where declared (pod updates require a copy made in this reconcile; the set is written only through UpdateStatus on a copy).",
+         "The bodies of the function literals passed to ClaimObject / RecheckDeletionTimestamp (selector match + isMemberOf filter, fresh GET with UID comparison) are opaque to the translator: their behaviour is the assumed funcparam contract. CanAdopt (sync.Once) assumed. Typed client contracts assumed.", "6 C10"),
+ "C11": ("sync is proved to issue no write at all and return nil when the cached set carries paused-reconcile=\"true\" (the gate precedes every effectful call; GetPausedReconcile is proved equal to the annotation test), and, for a set with a deletion timestamp, to leave the pod/claim write counter, the revision adoption counter and the adopt/release counters unchanged through adoptOrphanRevisions, getPodsForStatefulSet/ClaimPods/ClaimObject, UpdateStatefulSet and updateStatefulSet; the pod-control interface additionally requires 'not deleting' at every create/update/delete. A paused reconcile changes neither the API nor controller memory (frame), so un-pausing resumes from a state reachable without the pause.",
+         "'Converges to the same result as if never paused' beyond that frame argument is liveness (C02), not decided. Assumed contracts as for C09/C10.", "6 C11"),
  "C12": ("Postconditions of updateStatefulSet proved by exact ghost accounting over the snapshot (census sets, live/deleted sets, created counters, counting lemmas): on every error-free exit 0 <= ready, current, updated <= replicas; observedGeneration and the revision names are the reconciled ones; when nothing was created or deleted the four counters are the exact census of the snapshot. (completeRollingUpdate / status writer clauses: see level_note.)",
          "Not yet under contract: completeRollingUpdate, inconsistentStatus, the status updater (currentRevision promotion and observedGeneration monotonicity clauses of the property). " + RECON_NOTE, "6 C12"),
  "C13": ("The property is the precondition of the ControllerRevision Delete call in truncateHistory (belongs to this set, not current/update/pod-referenced, more than the limit unused, oldest first, each once) plus its postcondition (at most limit unused remain); ListRevisions is proved to return each revision once and only revisions owned by this set or orphaned. Index witnesses (ghost) and counting lemmas make the filter/trim loops inductive.",
          "Assumed: typed ControllerRevision client contracts, GetControllerOfNoCopy; revisionHistoryLimit present and >= 0 (CRD). The composition ListRevisions -> sort -> truncateHistory inside UpdateStatefulSet is not yet under contract (sortedness is not needed for the safety clauses; 'oldest first' is relative to the order truncateHistory is given).", "6 C13"),
  "C14": ("Postconditions of updateStatefulSet under the Parallel policy: every vacant desired ordinal was created at and every non-terminating condemned snapshot pod was deleted on error-free exits; at most one update delete.", RECON_NOTE, "6 C14"),
+ "C16": ("Postconditions of addPod, updatePod, deletePod (incl. tombstones), enqueueStatefulSet, resolveControllerRef, getStatefulSetsForPod over a ghost model of the work queue and an abstract lister content: a pod whose controller reference resolves (kind, name, UID) enqueues exactly that set; on an owner change the old and the new owner are both enqueued; an orphan enqueues every set of its namespace whose selector matches (completeness proved through the lister expansion GetPodStatefulSets, whose loop is under contract); equal resource versions enqueue nothing; nothing else is enqueued. processNextWorkItem: failure -> AddRateLimited and no Forget, success -> Forget, Done always.",
+         "Assumed: informer payload types, key function, listers do not fail, selector predicates uninterpreted, reflect.DeepEqual on owner references. The set-informer handler literals (wiring in NewStatefulSetController) are not under contract; they call enqueueStatefulSet, which is.", "6 C16"),
  "C15": ("Zero-annotation safety sweep: every dereference, index, slice expression, map write, type assertion, make length, conversion and int32 arithmetic in the functions under contract yields an obligation, proved under the weak 'crd' profile (only what the CRD schema guarantees; strategy/policy strings and the partition arbitrary, pod populations arbitrary including ordinal MaxInt32).",
          "Currently covers updateStatefulSet and the pod predicates; callees with assumed contracts (ApplyRevision, newVersionedStatefulSetPod, library code) are assumed panic-free. " + RECON_NOTE, "6 C15"),
 }
